@@ -86,6 +86,15 @@ def ref_shapes(spec):
         if ks[0] != ks[1]:
             raise IllTyped("add")
         return ks[0]
+    if op == "AddN":
+        if any(k != ks[0] for k in ks):
+            raise IllTyped("add")
+        return ks[0]
+    if op == "ComposeN":
+        for a_, b_ in zip(ks[:-1], ks[1:]):
+            if a_[0] != b_[1]:
+                raise IllTyped("compose")
+        return ks[-1][0], ks[0][1]
     if op == "Hstack":
         if any(k[1] != ks[0][1] for k in ks):
             raise IllTyped("oshape differs")
@@ -143,6 +152,13 @@ def ref_matrix(spec, leafM):
         return Ms[0] + Ms[1]
     if op == "Sub":
         return Ms[0] - Ms[1]
+    if op == "AddN":
+        return sum(Ms[1:], Ms[0])
+    if op == "ComposeN":
+        M = Ms[0]
+        for Mk in Ms[1:]:
+            M = M @ Mk
+        return M
     ks = [ref_shapes(k) for k in spec["kids"]]
     ish, osh = ref_shapes(spec)
     M = np.zeros((prod(osh), prod(ish)), dtype=complex)
@@ -257,4 +273,43 @@ def ill_typed_pairs(leaves):
                     ref_shapes(c)
                 except IllTyped:
                     out.append(c)
+    return out
+
+
+def nary_trees(leaves, arities=(3, 4), all_axes=True):
+    """Well-typed n-ary (3 or 4 operands) sums, compositions and stacks over the leaf alphabet: the binary trees above
+    never exercise the loops over the 3rd, 4th, ... operand (index bookkeeping of Hstack/Vstack/Diag, accumulation in Add)."""
+    out = []
+    for n in arities:
+        for combo in itertools.product(leaves, repeat=n):
+            shapes = [ref_shapes(k) for k in combo]
+            if n == 4 and len({id(k) for k in combo}) > 2:
+                continue   # 4 operands: at most two distinct leaves (keeps the product small)
+            ish = [s_[0] for s_ in shapes]
+            osh = [s_[1] for s_ in shapes]
+            if all(s_ == shapes[0] for s_ in shapes):
+                out.append(dict(op="AddN", kids=list(combo)))
+            if all(ish[i] == osh[i + 1] for i in range(n - 1)):
+                out.append(dict(op="ComposeN", kids=list(combo)))
+            for name, same, stack in (("Hstack", all(o == osh[0] for o in osh), ish), ("Vstack", all(i_ == ish[0] for i_ in ish), osh)):
+                if not same:
+                    continue
+                axes = [None]
+                if all(len(s_) == len(stack[0]) for s_ in stack):
+                    nd = len(stack[0])
+                    axes += list(range(nd)) + (list(range(-nd, 0)) if all_axes else [])
+                for ax in axes:
+                    try:
+                        _stack_shape(list(stack), ax)
+                    except IllTyped:
+                        continue
+                    out.append(dict(op=name, axis=ax, kids=list(combo)))
+            for i_ax in ([None] + (list(range(len(ish[0]))) if all(len(s_) == len(ish[0]) for s_ in ish) else [])):
+                for o_ax in ([None] + (list(range(len(osh[0]))) if all(len(s_) == len(osh[0]) for s_ in osh) else [])):
+                    try:
+                        _stack_shape(ish, i_ax)
+                        _stack_shape(osh, o_ax)
+                    except IllTyped:
+                        continue
+                    out.append(dict(op="Diag", iaxis=i_ax, oaxis=o_ax, kids=list(combo)))
     return out
